@@ -429,7 +429,7 @@ class Polynomial(Vector):
 
         # Shift coefficients till the leading coefficient is nonzero
         shifts = (coefficients[...,0] == 0.)
-        total_shifts = np.zeros(shifts._shape_, dtype='int')
+        total_shifts = np.zeros(np.shape(shifts), dtype='int')
         while np.any(shifts):
             coefficients[shifts,:-1] = coefficients[shifts,1:]
             coefficients[shifts,-1] = 0.
@@ -481,7 +481,8 @@ class Polynomial(Vector):
         if recursive:
             for (key, value) in self._derivs_.items():
                 deriv = (-value.eval(roots, recursive=False) /
-                         self.deriv.eval(roots, recursive=False))
+                         self.deriv(recursive=False).eval(roots,
+                                                          recursive=False))
                 roots.insert_deriv(key, deriv)
 
         return roots
